@@ -61,13 +61,16 @@ def scenario(draw) -> Dict[str, Any]:
     services = draw(c11.services_st(3))
     for s_ in services:           # default TTLs: the 1 s protection is about sightings, not about TTL quarters
         s_['host_ttl'], s_['other_ttl'] = 120, 4500
+    if draw(st.integers(0, 2)) == 0:
+        # ... except that one service may have a TTL below the 1125 s pointer floor (its looped-back pointer is cached floored)
+        services[draw(st.integers(0, len(services) - 1))]['other_ttl'] = draw(st.sampled_from([60, 300]))
     n = len(services)
     gap_st = st.one_of(st.sampled_from(GRID), st.sampled_from(GRID), st.integers(0, 3000))
     events: List[Dict[str, Any]] = []
     n_ev = draw(st.integers(1, 8))
     qid = 1
     for _ in range(n_ev):
-        kind = draw(st.sampled_from(['query', 'query', 'query', 'sighting', 'train']))
+        kind = draw(st.sampled_from(['query', 'query', 'query', 'sighting', 'train', 'sighting2']))
         if kind == 'query':
             ev = draw(query_event(n, draw(gap_st)))
             ev['id'] = qid
@@ -81,6 +84,19 @@ def scenario(draw) -> Dict[str, Any]:
             ev['id'] = qid
             qid += 1
             events.append(ev)
+        elif kind == 'sighting2':
+            # the same records are seen twice, seconds apart (a peer that repeats its announcement; the second copy has other bytes
+            # than the first only if the selection differs - identical copies more than a second apart are processed too), and a
+            # query follows the second sighting at the protection boundary
+            k_ = draw(st.integers(0, n - 1))
+            which = draw(st.sampled_from([['ptr', 'srv', 'txt', 'addr'], ['ptr'], ['ptr', 'srv']]))
+            events.append({'gap': draw(gap_st), 'kind': 'sighting', 'svc': k_, 'which': which})
+            events.append({'gap': draw(st.sampled_from([1001, 1500, 5000, 20000, 200000])), 'kind': 'sighting', 'svc': k_,
+                           'which': which if draw(st.booleans()) else ['ptr']})
+            ev = draw(query_event(n, draw(st.sampled_from([1, 500, 500, 999, 1000, 1001]))))
+            ev['id'] = qid
+            qid += 1
+            events.append(ev)
         else:
             client = draw(st.integers(0, 2))
             length = draw(st.integers(1, 4))
@@ -88,7 +104,11 @@ def scenario(draw) -> Dict[str, Any]:
             for i in range(length):
                 ev = draw(query_event(n, draw(gap_st) if i == 0 else draw(st.sampled_from([0, 1, 100, 399, 400, 401, 450, 499, 500, 501]))))
                 ev['client'] = client if draw(st.integers(0, 5)) else (client + 1) % 3
-                ev['probe'] = False
+                # the packet that completes a train may be a probe (a host whose truncated browse query is followed by the probe of
+                # a registration it makes): the known answers of the earlier packets still count
+                ev['probe'] = bool(i == length - 1 and length > 1 and draw(st.integers(0, 3)) == 0)
+                if length > 1 and i == 0 and not ev['ka'] and draw(st.booleans()):
+                    ev['ka'] = [[draw(st.integers(0, 5)), draw(st.sampled_from(['above', 'full']))]]
                 ev['tc'] = (i < length - 1) or last_tc
                 ev['id'] = qid
                 qid += 1
@@ -184,7 +204,7 @@ def check(case: Dict[str, Any]) -> Dict[str, Any]:
         for r, ttl in L['exp'].items():
             if r in L['dont_care']:
                 continue
-            s = run.last_sighting(r, L['g'])
+            s = run.last_wire_sighting(r, L['g'])
             t = L['t']
             if L['probe']:
                 cls, cover, just = 'immediate', (t - EPS, t + EPS), (t - EPS, t + EPS)
@@ -221,7 +241,7 @@ def check(case: Dict[str, Any]) -> Dict[str, Any]:
             trans.append({'x': s['t_ms'], 'g': s['g'], 'r': ident})
     timeline = {'queries': [(rel(L['t']), [p['questions'] for p in L['packets']], 'probe' if L['probe'] else
                              'train' if L['train'] else '') for L in logical],
-                'sightings': sorted({(rel(s[0]), str(i[:2])) for i, v in run.sightings.items() for s in v if s[0] >= t0 - 1200})[:30],
+                'sightings': sorted({(rel(s[0]), str(i[:2])) for i, v in run.wire_sightings().items() for s in v if s[0] >= t0 - 1200})[:30],
                 'transmissions': sorted({(rel(t_['x']), str(t_['r'][:2])) for t_ in trans})[:40]}
     by_r: Dict[Tuple, List[int]] = {}
     for i, t_ in enumerate(trans):
